@@ -10,7 +10,7 @@ PROP = "C05"
 LEVEL = "model_checking"
 RULE = (
     "X-ENUM over NAMES (all ordered pairs / triples of function names from a 16-name confusable alphabet: prefixes of one another, "
-    "dotted-suffix pairs, names that look like generated labels, registers or devices, in 3 skeletons incl. a library module), FUNC, "
+    "dotted-suffix pairs, names that look like generated labels, registers or devices, in 4 skeletons incl. a library module and a host function with an inlined helper), FUNC, "
     "FUNC2, LIST, CTRL and LIB programs x {inline on, off} x {labels kept, removed}.  Per compilation pair: (a) static resolution with "
     "the harness's own tokenizer -- every j/jal/b*/br* target is a label defined exactly once, a line number inside the program, or a "
     "register; no label is defined twice; (b) the relation of the property -- the label-free text equals, line for line (token "
@@ -126,6 +126,9 @@ def build_cases(tier):
         a, b = c["names"]
         # main-file function '<module>_<f>' gets the same label '<module>.<f>' as the library function (finding F-05c)
         fam = "W-F05c" if b == f"{mod}_{a}" and "import " + mod + "\n" in c["src"] else ("W-F05b" if is_f05b([a, "twice"]) or is_f05b([b]) else c["family"])
+        cases.append(dict(c, family=fam, variants=v4))
+    for c in F.names_inline():
+        fam = "W-F05b" if is_f05b(c["names"]) else c["family"]
         cases.append(dict(c, family=fam, variants=v4))
     trip = F.names_triples(step=1 if tier == "thorough" else 9)
     for c in trip:
